@@ -165,6 +165,19 @@ func runCase(t *testing.T, k *kase) {
 	if _, ok := k.Impl["timeout"]; ok {
 		runOnce(t, k, 5*deadline)
 	}
+	// an error that is none of the plugin's own (store/etcd trouble on a loaded machine) is an
+	// environment failure, not behaviour of the code under test: retry, then mark the case
+	for try := 0; try < 3 && envFailed(k.Impl); try++ {
+		time.Sleep(200 * time.Millisecond)
+		runOnce(t, k, 5*deadline)
+	}
+	if envFailed(k.Impl) {
+		k.Impl = map[string]any{"enverr": true}
+	}
+}
+
+func envFailed(impl map[string]any) bool {
+	return impl["seterr"] == "other" || impl["err"] == "other" || impl["commit"] == "other"
 }
 
 func runOnce(t *testing.T, k *kase, deadline time.Duration) {
@@ -377,6 +390,26 @@ func genMem(r *hx.Rng, n *node) int64 {
 	}
 }
 
+// overuseMemory makes the node's memory usage exceed its capacity by 0..3 requests (such a state
+// passes Validate, which never looks at node memory, and arises after lowering a node's memory
+// capacity); with numa=true also the NUMA nodes' usage (rejected by Validate, accepted by GetCPUPlans).
+func overuseMemory(r *hx.Rng, n *node, mem int64, numa bool) {
+	if mem <= 0 {
+		mem = 1
+	}
+	n.MemUse = n.Mem + mem*int64(r.Range(0, 3)) + int64(r.Intn(int(mem)))
+	if r.Chance(20) {
+		n.MemUse = n.Mem + mem*int64(r.Range(1, 3)) // exactly k requests over
+	}
+	if numa {
+		for id, c := range n.NUMAMem {
+			if r.Chance(60) {
+				n.NUMAMemUse[id] = c + mem*int64(r.Range(0, 3)) + int64(r.Intn(int(mem)))
+			}
+		}
+	}
+}
+
 func genMaxShare(r *hx.Rng) int {
 	return hx.Pick(r, -1, -1, -1, 1, 1, 2, 3, 5)
 }
@@ -477,6 +510,15 @@ func corpus() []*kase {
 		mk("plans", 100, -1, node{Cap: map[string]int{"0": 100, "1": 100, "2": 100, "3": 100}, Mem: 100, MemUse: 90,
 			NUMA: map[string]string{"0": "n0", "1": "n0", "2": "n1", "3": "n1"}, NUMAMem: map[string]int64{"n0": 50, "n1": 50},
 			NUMAMemUse: map[string]int64{"n0": 0, "n1": 0}}, request{Bind: true, CPU: 1000, Mem: 20}, 1, nil),
+		// memory usage above capacity (passes Validate; e.g. after the node's memory was lowered):
+		// capacity 4096, used 6144, request 1.5 cpu / 1024 mem -> cpuPlans[:-2] without the clamp
+		mk("plans", 100, -1, node{Cap: two, Mem: 4096, MemUse: 6144}, request{Bind: true, CPU: 1500, Mem: 1024}, 1, nil),
+		mk("deploy", 100, -1, node{Cap: two, Mem: 4096, MemUse: 6144}, request{Bind: true, CPU: 1500, CPULim: 1500, Mem: 1024, MemLim: 1024}, 1, nil),
+		mk("plans", 100, -1, node{Cap: map[string]int{"0": 100, "1": 100, "2": 100, "3": 100}, Mem: 4096, MemUse: 1024,
+			NUMA: map[string]string{"0": "n0", "1": "n0", "2": "n1", "3": "n1"}, NUMAMem: map[string]int64{"n0": 2048, "n1": 2048},
+			NUMAMemUse: map[string]int64{"n0": 5000, "n1": 0}}, request{Bind: true, CPU: 1000, Mem: 1024}, 1, nil),
+		mk("realloc", 100, -1, node{Cap: two, Use: map[string]int{"0": 100, "1": 0}, Mem: 4096, MemUse: 8192},
+			request{Keep: true, Mem: 1024, MemLim: 1024}, 1, &workload{CPU: 1000, CPULim: 1000, Mem: 1024, MemLim: 1024, Map: map[string]int{"0": 100}, NUMAMem: map[string]int64{}}),
 		// D23: fractional workload moved by keep-bind realloc
 		mk("realloc", 100, -1, node{Cap: two, Use: map[string]int{"0": 100, "1": 50}, Mem: 1000, MemUse: 10},
 			request{Keep: true}, 1, &workload{CPU: 1500, CPULim: 1500, Mem: 10, MemLim: 10, Map: map[string]int{"0": 100, "1": 50}, NUMAMem: map[string]int64{}}),
@@ -564,6 +606,12 @@ func TestGen(t *testing.T) {
 		case "plans":
 			n := genNode(r, base, false)
 			k := &kase{Op: op, Base: base, MaxShare: ms, Node: n, Req: request{Bind: true, CPU: genCPU(r, base), Mem: genMem(r, &n)}, Count: 1}
+			if r.Chance(8) {
+				if k.Req.Mem == 0 {
+					k.Req.Mem = int64(r.Range(1, 40))
+				}
+				overuseMemory(r, &k.Node, k.Req.Mem, r.Chance(30))
+			}
 			if prop == "C33" || r.Chance(25) { // affinity: a workload living on the node, given back first
 				w := placeWorkload(r, &n, base, k.Req.CPU, 0)
 				if w != nil {
@@ -587,6 +635,13 @@ func TestGen(t *testing.T) {
 			if r.Chance(5) {
 				rq.CPU = 0
 			}
+			if r.Chance(8) {
+				if rq.Mem == 0 {
+					rq.Mem = int64(r.Range(1, 40))
+					rq.MemLim = rq.Mem
+				}
+				overuseMemory(r, &n, rq.Mem, r.Chance(15))
+			}
 			emit(&kase{Op: op, Base: base, MaxShare: ms, Node: n, Req: rq, Count: hx.Pick(r, 1, 1, 1, 2, 2, 3, r.Range(1, 8))})
 		case "realloc":
 			whole := r.Chance(80)
@@ -607,6 +662,9 @@ func TestGen(t *testing.T) {
 				continue
 			}
 			delta := hx.Pick[int64](r, 0, 0, 0, int64(r.Range(1, 10)), -int64(r.Range(0, int(mem))), n.Mem)
+			if r.Chance(6) {
+				overuseMemory(r, &n, mem+1, false)
+			}
 			emit(&kase{Op: op, Base: base, MaxShare: ms, Node: n, Req: request{Keep: true, Mem: delta, MemLim: delta}, Count: 1, Origin: w})
 		}
 	}
